@@ -45,3 +45,22 @@ CHECKS["C03"] = dict(
                   dict(name="s1-words-k4-small", driver="parsex", args=["--space", "s1", "--k", 4, "--tokens", "small", "--apis", 6])],
     ),
 )
+
+
+# ------------------------------------------------------------------------------------------------ auto-registered specs
+# Every module xv/cNN.py (or xv/cNN_*.py) exposing SPEC (and optionally PROPERTY) is registered under its property id.
+def _autoload():
+    import importlib, os, re
+    here = os.path.dirname(os.path.abspath(__file__))
+    for f in sorted(os.listdir(here)):
+        m = re.match(r"^(c\d\d)(_\w+)?\.py$", f)
+        if not m:
+            continue
+        mod = importlib.import_module("xv." + f[:-3])
+        if hasattr(mod, "SPEC"):
+            CHECKS[getattr(mod, "PROPERTY", m.group(1).upper())] = mod.SPEC
+        if hasattr(mod, "NOT_APPLICABLE_REASON"):
+            NOT_APPLICABLE[m.group(1).upper()] = mod.NOT_APPLICABLE_REASON
+
+
+_autoload()
